@@ -68,6 +68,7 @@ def run(ctx, drv):
         steps = [s for sg in runs.segments(tr) for s in sg["steps"]]
         N = getattr(alg, "population_size", None)
         prev = None
+        prev_pop_gaes = prev_fit_gaes = None
         prev_result = None
         prev_best = None
         kind = ARCHIVE_RESULT.get(name)
@@ -145,6 +146,21 @@ def run(ctx, drv):
                             break
                 prev_result = res
                 ctx.case((name, cfg["seed"], si, "arch"), prev_result is not None and len(res) >= 2)
+            # ------------------------------------------------ GA / ES: the survival step reproduced (stable comparator sort, first N)
+            if name in ("GA", "ES") and prev_pop_gaes is not None and "population" in ex and len(st["batches"]) == 1:
+                offspring = st["batches"][0]["after"]
+                merged = list(offspring) + ([prev_fit_gaes] if name == "GA" else list(prev_pop_gaes))
+                if name == "ES" or prev_fit_gaes is not None:
+                    popids = [x[0] for x in ex["population"]]
+                    detail = dict(hin, merged=[[m[0], m[2], m[4]] for m in merged], survivors=popids)
+                    ask(f"gaes {int(constrained)} {dirs_w(dirs)} {N} {len(merged)} " + " ".join(solw(x) for x in merged),
+                        lambda g, popids=popids, detail=detail, name=name: None if g.split()[1:] == ([str(i) for i in popids] or ["-"])
+                        else ctx.disagree(f"{name} survival (comparator sort of offspring + " + ("fittest" if name == "GA" else "population") + ", first N) = next population",
+                                          detail, popids, g.split()[1:]))
+                    ctx.count("gaes_generations_replayed")
+            if name in ("GA", "ES") and "population" in ex:
+                prev_pop_gaes = ex["population"]
+                prev_fit_gaes = (ex.get("fittest") or [None])[0]
             # ------------------------------------------------ GA / ES best never worse
             if name in ("GA", "ES"):
                 cur = ex.get("fittest") or ex.get("population")
